@@ -30,9 +30,17 @@ LARGE_EDGES = sorted({v for k in range(7, 11) for v in ((1 << k) - 3, (1 << k) -
                       if MAXLEN < v <= MAXPAYLOAD})
 
 
+# payload words whose BYTE VALUES equal framing ordered sets (sent as plain data, ctrl = 0): header-packet start,
+# data-payload start / end / abort, link-command start, SKP / COM runs -- legal data that must stay data
+ALIAS_WORDS = [[0xFB, 0xFB, 0xFB, 0xF7], [0x5C, 0x5C, 0x5C, 0xF7], [0xFD, 0xFD, 0xFD, 0xF7], [0x66, 0x66, 0x66, 0xF7],
+               [0xFE, 0xFE, 0xFE, 0xF7], [0x3C, 0x3C, 0x3C, 0x3C], [0xBC, 0xBC, 0xBC, 0xBC], [0xF7, 0xFB, 0xFB, 0xFB],
+               [0xFB, 0xFB, 0xF7, 0xF7], [0xFD, 0xFD, 0xFD, 0xFE]]
+
+
 def synth_payload(n, seed, fill):
     """Large payloads are described compactly (plen, pseed, pfill) and expanded here, deterministically:
-    fill 0 = pseudo-random bytes (LCG), 1 = all 0x00, 2 = all 0xFF, 3 = incrementing from seed."""
+    fill 0 = pseudo-random bytes (LCG), 1 = all 0x00, 2 = all 0xFF, 3 = incrementing from seed, 4 = pseudo-random
+    with words whose bytes equal framing ordered sets."""
     if fill == 1:
         return [0] * n
     if fill == 2:
@@ -44,6 +52,10 @@ def synth_payload(n, seed, fill):
     for _ in range(n):
         x = (x * 1664525 + 1013904223) & 0xFFFFFFFF
         out.append(x >> 24)
+    if fill == 4:                       # pseudo-random with framing-symbol images on word boundaries
+        step = 5 + seed % 7
+        for k, w in enumerate(range((seed >> 3) % step, n // 4, step)):
+            out[4 * w:4 * w + 4] = ALIAS_WORDS[(seed + k) % len(ALIAS_WORDS)]
     return out
 
 
@@ -217,7 +229,8 @@ class TxSub(Sub):
     rule = ("sequences of 1..5 packets: header (random dw0-dw2, defined type, seq, reserved/hub-depth/delayed/"
             "deferred, arbitrary crc inputs), DATA headers with payload 0..64 bytes (every length mod 4, junk in "
             "unused lanes) and, for one DATA packet in ten, 65..1024 bytes (the maximum packet size; lengths around "
-            "every power of two and the last few below the maximum favoured), delayed flag, held or strobed generate, 0..3 idle cycles between packets, cyclic PHY ready "
+            "every power of two and the last few below the maximum favoured); a quarter of the payloads contain words whose "
+            "byte values equal framing ordered sets (HPSTART, DPP start/end/abort, LCSTART, SKP/COM runs) sent as data; delayed flag, held or strobed generate, 0..3 idle cycles between packets, cyclic PHY ready "
             "pattern. Oracle: accepted wire symbols == independent reference encoding (framing, CRC-16, CRC-5, CRC-32 "
             "right after the last byte, END END END EPF, or EDB abort when delayed); source held while stalled; done "
             "on the last word; each payload word consumed exactly once; round trip through RawHeaderPacketReceiver "
@@ -255,7 +268,7 @@ class TxSub(Sub):
                 # large payloads up to the maximum packet size, described compactly (expanded in run())
                 big = dict(plen=draw(st.one_of(st.sampled_from(LARGE_EDGES + [MAXPAYLOAD]),
                                                st.integers(MAXLEN + 1, MAXPAYLOAD))),
-                           pseed=draw(bits(32)), pfill=draw(weighted([(0, 5), (1, 1), (2, 1), (3, 1)])))
+                           pseed=draw(bits(32)), pfill=draw(weighted([(0, 5), (1, 1), (2, 1), (3, 1), (4, 3)])))
                 L = 0
             flags = draw(bits(8))
             if draw(weighted([(0, 4), (1, 1)])) == 0:
@@ -266,6 +279,11 @@ class TxSub(Sub):
                      junk=draw(bits(32)), hold=draw(st.integers(0, 1)), lead=draw(st.integers(1, 3)),
                      gap=draw(weighted([(0, 4), (1, 2), (3, 1)])), pending=draw(weighted([(0, 3), (1, 1)])),
                      garbage=draw(bits(32)))
+            if L >= 4 and draw(weighted([(0, 3), (1, 1)])):
+                # one or two payload words carry the byte values of a framing ordered set (as data)
+                for _ in range(draw(st.integers(1, 2))):
+                    w = draw(st.integers(0, L // 4 - 1))
+                    d["payload"][4 * w:4 * w + 4] = draw(st.sampled_from(ALIAS_WORDS))
             if big:
                 d.update(big)
             return d
